@@ -93,6 +93,27 @@ CHECKS = {
     technique='Rocq proof (model = declarative specification for all inputs; structural recursion + fuelled-loop equivalence for discovery) + exhaustive matrix / random differential correspondence through the real binary',
     design='§11 C20'),
 
+ 'C17': dict(
+    text='Machine-checked theorems (Props/C17.v, closed under the global context) over a model of cli/src/writer.rs (check_write_file: read, compare, skip / '
+         'write-if-non-empty; write_single_file; write_multiple_files with the stop at the first failing crate; Swift post_generation / write_codable_file; '
+         'parse errors stop before the writer) on an abstract file system with modification times, for ANY initial file system, ANY clock values and run '
+         'histories of ANY length: an identical re-run - and any number of them after any history - leaves the file system literally unchanged, bytes and '
+         'mtimes (C17_idempotent, C17_idempotent_history); after any history every file the last run is responsible for whose generated bytes are non-empty '
+         'holds exactly what a run into an empty location produces (C17_fresh); a closed form says a responsible file is written iff its bytes differ and '
+         'the new bytes are non-empty (C17_write_iff_changed); files outside the run\'s reach are untouched (C17_untouched, _history). Two carve-outs are '
+         'stated exactly and the unrestricted statements refuted by witnesses: empty generated output leaves a stale file in place '
+         '(C17_empty_output_keeps_file, C17_fresh_refuted; the real tool was never seen to produce one), and Swift\'s shared Codable.swift is re-stamped by '
+         'EVERY run because it is compared without the newline it is written with (C17_codable_rewritten_every_run, C17_idempotent_refuted) - a genuine '
+         'defect of the unchanged tree, recorded as known finding C17-swift-codable-rewritten. Tied to the code through the REAL BINARY: histories of up to '
+         '6 runs over 2-4 mutated versions of 1-4-crate source trees, -o and -d, six languages, empty and pre-seeded locations, transient parse errors and '
+         'generation failures; after every run bytes and last-writer of every file are compared with the model and judged by the extracted Spec predicates.',
+    note=NOTE_COMMON + 'The model abstracts the real file system: a finite map path -> (bytes, mtime) with one clock value per run; no directories, permissions, '
+         'symlinks, I/O errors or concurrent writers. The generated bytes are taken as given: a run receives the per-crate outputs (observed in a run of the '
+         'same sources into an empty location), so C17 says nothing about determinism of generation (C06). Domain: pairwise distinct output paths (dom_C17). '
+         'The check observes "written by this run" by setting every file to a fixed old mtime (os.utime) before each run. No libdrive harness is used.',
+    technique='Rocq proof (fold of compare-and-write steps, closed form per file, induction over run histories) + differential correspondence through the real binary with mtime observation',
+    design='§11 C17'),
+
 }
 NOT_YET = {}
 def main():
